@@ -37,6 +37,12 @@ type c13Params struct {
 	// the handshake; copies of the client's last flight are delivered to it again Dwell times while the callers
 	// are at work (the endpoint answers them by re-sending its own last flight from inside Read)
 	Dwell int `json:"dwell,omitempty"`
+	// Oversize (tlcp, close-race): after its frames the peer writes a record header announcing 65535 bytes straight
+	// to the transport: a reader of the connection under test answers with a fatal alert while writers are at work
+	Oversize bool `json:"oversize,omitempty"`
+	// BadAddr (dtlcp): an auxiliary task calls WriteTo with an address that is not the peer's (it must be
+	// refused and leave no trace: Close at the end still returns)
+	BadAddr bool `json:"bad_addr,omitempty"`
 	// SmallRead (dtlcp, established): reader 0 uses Read with a buffer smaller than a datagram (the rest of the
 	// datagram comes with its next Read), the other readers use ReadFrom; all read until nothing arrives any more
 	SmallRead bool `json:"small_read,omitempty"`
@@ -105,6 +111,12 @@ func drawC13(src *vs.Src) *c13Params {
 			p.Readers = 2
 		}
 		p.Inbound = 4 + src.Intn(8)
+	}
+	if p.Scenario == "close-race" && p.Stack == TLCP {
+		p.Oversize = src.Bool(1, 2)
+	}
+	if p.Stack == DTLCP && (p.Scenario == "established" || p.Scenario == "close-race") {
+		p.BadAddr = src.Bool(1, 2)
 	}
 	if p.Scenario == "close-blocked" && src.Bool(1, 3) {
 		// the write deadline, set by another task, expires while Writes are blocked in a full transport; it is
@@ -269,6 +281,9 @@ func (c13) Run(c *Case, src *vs.Src) *Result {
 				return
 			}
 		}
+		if p.Oversize && pair.Pipe != nil {
+			pair.Pipe.S.Write([]byte{23, 1, 1, 0xff, 0xff})
+		}
 	})
 	// --- connection under test
 	established := p.Scenario != "first-use"
@@ -384,6 +399,18 @@ func (c13) Run(c *Case, src *vs.Src) *Result {
 				}
 			})
 		}
+		if p.BadAddr {
+			t := newTask("ut-badaddr")
+			w.Go(t.Name, func() {
+				defer func() { t.Done = true }()
+				for i := 0; i < p.CloseAt%5; i++ {
+					vs.Yield()
+				}
+				if _, err := utEP.(dEP).Conn.WriteTo([]byte("to somebody else"), simnet.Addr("stranger:9")); err == nil {
+					t.End = fmt.Errorf("WriteTo to an address that is not the peer's returned nil")
+				}
+			})
+		}
 		if p.Scenario == "close-race" {
 			t := newTask("ut-closer")
 			w.Go(t.Name, func() {
@@ -439,6 +466,11 @@ func (c13) Run(c *Case, src *vs.Src) *Result {
 			if t.HSErr != nil {
 				r.Violate("handshake-failed", sigp+" handshake-failed", "task %s: Handshake: %v", t.Name, t.HSErr)
 			}
+		}
+	}
+	for _, t := range tasks {
+		if t.Name == "ut-badaddr" && t.End != nil {
+			r.Violate("bad-addr", sigp+" writeto-foreign-address-accepted", "%v", t.End)
 		}
 	}
 	// --- writes whole and exactly once
